@@ -203,7 +203,8 @@ def write_crystal_structure(
     elif interface_mode == "fleur":
         import phonopy.interface.fleur as fleur
 
-        speci, restlines = optional_structure_info
+        speci = optional_structure_info[1]
+        restlines = optional_structure_info[2]
         fleur.write_fleur(filename, cell, speci, 1, restlines)
     elif interface_mode == "abacus":
         import phonopy.interface.abacus as abacus
